@@ -289,6 +289,7 @@ func (o OneOfSchema[KeyType]) validateMap(data map[string]any) (KeyType, Object,
 			Message: fmt.Sprintf(
 				"validation failed for OneOfSchema. Failed to validate as selected schema type '%T' from discriminator value '%v' (%s)",
 				selectedSchema, selectedTypeIDAsserted, err),
+			Path: constraintErrorPath(err),
 		}
 	}
 	return selectedTypeIDAsserted, selectedSchema, nil
